@@ -147,6 +147,12 @@ var reinjectGrammars = []string{
 	"s = item+ END; item = A | LP item RP | @e LP",
 }
 
+// shareErrGrammars: an error production and a token production of the same shape bound to ONE method with an
+// interface-typed first parameter (a value of type Error for one production, Token for the other)
+var shareErrGrammars = []string{
+	"s = item*; item = A SEMI | B SEMI | @e SEMI", "s = LP x RP | LB x RB; x = A C | @e C | B",
+}
+
 // more than 256 terminals and more than 256 states: numbers that differ by a multiple of 256 in the
 // parser tables (row-sharing keys, byte-sized encodings)
 func init() {
